@@ -80,6 +80,12 @@ func nwBuild(flat []nwNode, dist func(i int) float64) *newick.Node {
 func nwReadAll(data []byte) (trees [][]nwNode, gotErr bool, panicked bool) {
 	trees = [][]nwNode{}
 	panicked, _ = catch(func() {
+		if failedReadsFirst {
+			for _, t := range malformedTexts["newick"] {
+				for range newick.Reader(strings.NewReader(t)) {
+				}
+			}
+		}
 		for n, err := range newick.Reader(deliver(data)) {
 			if err != nil {
 				gotErr = true
@@ -339,6 +345,7 @@ func newickDrive(args []string) error {
 		}
 		r := newRand(int64(sid) + 5000)
 		readDelivery = []int{0, 0, 1, 0, 2, 3}[sid%6]
+		failedReadsFirst = sid%3 == 2
 		if sid < 8 { // (the large trees of the first sessions: all at once or in 4096-byte reads)
 			readDelivery = []int{0, 3}[sid%2]
 		}
